@@ -46,6 +46,16 @@ pub struct FailCase {
     pub stdin: SIn,
     pub term: STerm,
     pub detached: bool,
+    /// the commands that do get started stay around this long after their pipes
+    /// were closed (a command is not obliged to exit at once)
+    #[serde(default)]
+    pub linger_ms: u32,
+    /// ... and ignore SIGTERM meanwhile
+    #[serde(default)]
+    pub ign_term: bool,
+    /// lines the started commands write to standard error before reading their input
+    #[serde(default)]
+    pub err_lines: u32,
 }
 
 pub fn compatible(stdin: SIn, term: STerm) -> bool {
@@ -68,7 +78,7 @@ fn build_and_run(case: &FailCase, helper: std::path::PathBuf, markers: std::path
         let mut e = if case.cause == Cause::Missing && i == case.k {
             Exec::cmd("/nonexistent/verif-no-such-program").arg("x")
         } else {
-            Exec::cmd(&helper).arg("stage").arg(format!("T{}", i + 1)).arg("0").arg("0").arg("0").arg(&markers).arg(i.to_string())
+            Exec::cmd(&helper).arg("stage").arg(format!("T{}", i + 1)).arg((2 * case.err_lines).to_string()).arg(case.linger_ms.to_string()).arg("0").arg(&markers).arg(i.to_string()).arg(if case.ign_term { "igterm" } else { "-" })
         };
         if case.detached {
             e = e.detached();
@@ -173,7 +183,7 @@ pub fn check_case(ctx: &Ctx, case: &FailCase, rep: &mut CaseReport) -> CaseResul
     let fail = |sig: &str, msg: String| Err(Fail::new(format!("C14:{}", sig), format!("{}\ncase={:?}", msg, case)));
 
     if case.k >= 1 || case.cause == Cause::Pipe {
-        rep.nontrivial(format!("n{}|k{}|{:?}|{:?}|{:?}|det{}", case.n, case.k, case.cause, case.stdin, case.term, case.detached as u8));
+        rep.nontrivial(format!("n{}|k{}|{:?}|{:?}|{:?}|det{}|linger{}|igterm{}|errlines{}", case.n, case.k, case.cause, case.stdin, case.term, case.detached as u8, case.linger_ms, case.ign_term as u8, case.err_lines));
     }
 
     let before = fd_snapshot();
@@ -303,7 +313,16 @@ pub fn enumerate(tier: Tier) -> Vec<FailCase> {
                             continue;
                         }
                         for detached in [false, true] {
-                            v.push(FailCase { n, k, cause: *cause, stdin, term, detached });
+                            v.push(FailCase { n, k, cause: *cause, stdin, term, detached, linger_ms: 0, ign_term: false, err_lines: 0 });
+                        }
+                        // started commands that take their time, ignore SIGTERM, or have
+                        // filled the shared stderr pipe before the failure is noticed
+                        if k >= 1 && *cause == Cause::Missing && (n <= 3 || tier == Tier::Thorough) {
+                            v.push(FailCase { n, k, cause: *cause, stdin, term, detached: false, linger_ms: 300, ign_term: false, err_lines: 0 });
+                            v.push(FailCase { n, k, cause: *cause, stdin, term, detached: false, linger_ms: 600, ign_term: true, err_lines: 0 });
+                            if matches!(term, STerm::Capture | STerm::Communicate) {
+                                v.push(FailCase { n, k, cause: *cause, stdin, term, detached: false, linger_ms: 0, ign_term: false, err_lines: 15000 });
+                            }
                         }
                     }
                 }
